@@ -324,9 +324,23 @@ func runC09(c *Ctx) {
 
 			gb := p.CallTo("(*" + pkgQRuntime + ".Adapter).getBackoffInterval")
 			cb := p.CallTo("(*" + pkgQRuntime + ".Adapter).clearBackoff")
-			c.MustCut("R09.6", "getBackoffInterval ⊣ {reconcile error}", body, gb, CutSpec{Edges: func(e EdgeInfo) bool { return strings.HasPrefix(e.Facts[0], "nonnil(") }}, 1)
+			c.MustCut("R09.6", "getBackoffInterval ⊣ {reconcile error}", body, gb, CutSpec{Edges: func(e EdgeInfo) bool {
+				for _, f := range e.Facts {
+					if strings.HasPrefix(f, "nonnil(") {
+						return true
+					}
+				}
+
+				return false
+			}}, 1)
 			c.MustCut("R09.6", "getBackoffInterval ⊣ {no interval from RequeueError}", body, gb, CutSpec{Edges: func(e EdgeInfo) bool {
-				return strings.HasPrefix(e.Facts[0], "eq(") && strings.HasSuffix(e.Facts[0], ",const:0)")
+				for _, f := range e.Facts {
+					if strings.HasPrefix(f, "eq(") && strings.HasSuffix(f, ",const:0)") {
+						return true
+					}
+				}
+
+				return false
 			}}, 1)
 			// clearBackoff exactly for skipped / successful jobs, wherever the arms are written
 			skipped := "true(call:github.com/siderolabs/gen/xerrors.TagIs(*"
@@ -392,8 +406,9 @@ func runC09(c *Ctx) {
 		// the result is `idx == -1`, idx being -1 exactly when the search loop ran out (every other incoming
 		// value of idx is a loop index, hence not negative)
 		for _, in := range Find(f, IsReturn) {
-			bo, ok := in.(*ssa.Return).Results[0].(*ssa.BinOp)
-			if !ok || bo.Op != token.EQL || p.Desc(bo.Y) != "const:-1" {
+			// `idx == -1` or `idx < 0` (directly or through a local such as isNew)
+			bo, ok := stripIface(in.(*ssa.Return).Results[0]).(*ssa.BinOp)
+			if !ok || !(bo.Op == token.EQL && p.Desc(bo.Y) == "const:-1" || bo.Op == token.LSS && p.Desc(bo.Y) == "const:0") {
 				continue
 			}
 
